@@ -1,5 +1,6 @@
 #!/bin/sh
 # builds the framework from files on disk only (offline)
 set -e
+python3 /verif/translators/translate.py
 cd /verif/lean/TrucModel && lake build TrucModel trucdrv 2>&1 | tail -3
 cd /verif/harness && CARGO_NET_OFFLINE=true cargo build --offline --release 2>&1 | tail -2
